@@ -7,6 +7,7 @@ import (
 	"flag"
 	"fmt"
 	"os"
+	"runtime"
 	"sort"
 	"strings"
 	"time"
@@ -71,6 +72,8 @@ func main() {
 	progress := flag.String("progress", "", "progress file")
 	only := flag.Int("only", -1, "run only this case index (replay)")
 	covKey := flag.String("covkey", "", "per-case coverage flag that makes a case non-trivial")
+	matrix := flag.Bool("matrix", false, "C14: scripted method matrix per tuple at the start of every case")
+	gcMode := flag.String("gc", "", "C11: 'stress' (background allocation + forced GCs) or 'collect' (finalizer-based collectability checks)")
 	flag.Parse()
 
 	pf, ok := eng.Profiles[*profile]
@@ -93,6 +96,19 @@ func main() {
 			o.Progress = f
 			defer f.Close()
 		}
+	}
+	o.Matrix = *matrix
+	var gcm *eng.GCMon
+	switch *gcMode {
+	case "stress":
+		gcm = eng.NewGCMon()
+		gcm.StartChurn()
+		o.GC = gcm
+		o.ForceGCEvery = 5
+	case "collect":
+		gcm = eng.NewGCMon()
+		o.GC = gcm
+		o.GCEvery = 60
 	}
 	st := eng.NewStats()
 	res := out{Prop: *prop, Profile: *profile, Seed: *seed, Shard: *shard, Hashes: map[string]bool{}, Counters: map[string]int64{}, Digests: map[string]string{}}
@@ -201,6 +217,17 @@ func main() {
 	res.Counters["shrink-calls"] = st.ShrinkCalls
 	res.Counters["resets"] = st.Resets
 	res.Counters["stats-calls"] = st.StatsCalls
+	if gcm != nil {
+		var ms runtime.MemStats
+		runtime.ReadMemStats(&ms)
+		res.Counters["gc-cycles"] = int64(ms.NumGC)
+		res.Counters["gc-boxes-allocated"] = gcm.Alloc.Load()
+		res.Counters["gc-boxes-finalized"] = gcm.Final.Load()
+		res.Counters["gc-orphaned-boxes-checked"] = st.GCOrphans
+		res.Counters["gc-orphaned-boxes-collected"] = st.GCCollected
+		res.Counters["gc-collectability-checks"] = st.GCChecks
+		res.Counters["gc-background-allocations"] = gcm.Churn.Load()
+	}
 	res.DistinctMasks = len(st.Masks)
 	res.DistinctFilters = len(st.FilterSpecs)
 	res.Misuse = st.Misuse
